@@ -200,6 +200,38 @@ RegenExpected(e) == [i \in 1..RegenLen(e) |-> RegenByte(e, i)]
 RegenOK(e) == e.open = "ok" /\ e.got = RegenExpected(e)
 Regen(e) == RegenOK(e) /\ UNCHANGED <<sp, img>>
 
+(* script{reader, size, base, seed, steps:[{a, n, ok, val, pos, rem}]}: ACCESS SCRIPTS.    *)
+(* A pattern file (byte at offset i = PatByte(seed, i)) is read through one file-backed      *)
+(* input type in one of several ways (sequential, skip first, seek + skip, first / last      *)
+(* byte, alternating read / skip, skip(0), skip to exactly the end).  The reader views        *)
+(* `size` bytes starting at file offset `base`.  HOW the content is read must not change     *)
+(* WHAT is presented: the script is replayed on the abstract position p:                     *)
+(*   read n   legal iff p + n <= size: succeeds with exactly the n pattern bytes at p,       *)
+(*            p' = p + n; otherwise it is refused                                            *)
+(*   skip n   legal iff p + n <= size: succeeds, p' = p + n; otherwise refused               *)
+(*   seek a   a < size: succeeds, p' = a; a = size: either; a > size: refused                *)
+(* and after every step position() = p' and remaining() = size - p' (-1 = not offered).      *)
+(* A refusal ends the script.                                                                *)
+PatByte(seed, i) == (i * 7 + (i \div 256) * 13 + seed) % 251
+StepLegal(st, p, size) ==
+    CASE st.a = "seek" -> st.n < size \/ (st.n = size /\ st.ok)
+      [] OTHER -> p + st.n <= size
+StepNext(st, p) == IF ~st.ok THEN p ELSE IF st.a = "seek" THEN st.n ELSE p + st.n
+RECURSIVE ScriptFrom(_, _, _)
+ScriptFrom(e, j, p) ==
+    IF j > Len(e.steps) THEN TRUE
+    ELSE LET st == e.steps[j]
+             q == StepNext(st, p)
+         IN /\ st.ok = StepLegal(st, p, e.size)
+            /\ (st.ok /\ st.a = "read") =>
+                   st.val = [x \in 1..st.n |-> PatByte(e.seed, e.base + p + x - 1)]
+            /\ (st.pos = -1 \/ st.pos = q)
+            /\ (st.rem = -1 \/ st.rem = e.size - q)
+            /\ (~st.ok) => j = Len(e.steps)
+            /\ ScriptFrom(e, j + 1, q)
+ScriptOK(e) == ScriptFrom(e, 1, 0)
+Script(e) == ScriptOK(e) /\ UNCHANGED <<sp, img>>
+
 (* raw transports (io::mmap readers: a byte stream without header): the reader    *)
 (* must present exactly the bytes of the image - nothing beyond the end of the    *)
 (* file, nothing missing - and an undamaged sync image is the synced content      *)
